@@ -33,6 +33,10 @@ CORPUS = os.path.join(VERIF, "corpus")
 REPO = os.environ.get("VERIF_REPO", "/repo")
 NPROC = os.cpu_count() or 4
 
+# Coq's primitive 64-bit floats (kernel primitives with reduction rules, used by Model/Rto.v only)
+KERNEL_FLOAT_PRIMITIVES = {"float", "add", "sub", "mul", "div", "abs", "opp", "sqrt", "ltb", "leb", "eqb", "compare",
+                           "classify", "of_uint63", "normfr_mantissa", "frshiftexp", "ldshiftexp", "next_up", "next_down"}
+
 ALLOWED_AXIOMS = {
     # standard-library axioms tolerated if they ever appear (DESIGN.md section 4)
     "functional_extensionality_dep",
@@ -280,10 +284,14 @@ def props_check(props_file):
         if b.startswith("Closed under the global context"):
             assumptions.append("closed")
         elif b.startswith("Axioms:"):
-            names = re.findall(r"(?m)^([A-Za-z_][\w.']*)\s*:", b[len("Axioms:"):])
+            decls = re.findall(r"(?m)^([A-Za-z_][\w.']*)\s*:\s*(.*)$", b[len("Axioms:"):])
+            names = [n for n, _ in decls]
             assumptions.append(names)
-            for nme in names:
-                if nme not in ALLOWED_AXIOMS and nme.split(".")[-1] not in ALLOWED_AXIOMS:
+            for nme, typ in decls:
+                short = nme.split(".")[-1]
+                if short in KERNEL_FLOAT_PRIMITIVES and (typ.strip() == "Set" or "float" in typ):
+                    continue      # primitive floats of the kernel (Print Assumptions lists them; they are not axioms)
+                if nme not in ALLOWED_AXIOMS and short not in ALLOWED_AXIOMS:
                     bad.append(nme)
     printed = len(assumptions)
     ok = rc == 0 and not bad and printed >= len(theorems)
